@@ -224,7 +224,7 @@ def name_known_expr_defect(r: Run, prog, iops):
             n, _, ops = gen.Ref(r.builtins, mode).run(prog)
         except (Bad, SyntaxError, NameError):
             continue
-        if ops_diff(iops, canon(r.ref_expect(n, ops))) is None:
+        if ops_diff(iops, canon(r.ref_expect(n, ops)), nonfinite_equal=True) is None:
             return sig, what
     return None, None
 
@@ -854,6 +854,63 @@ def stream_ext(r: Run, n):
                          {'stream': 'ext', 'text': txt})
 
 
+def stream_ext_other(r: Run, n, with_cirq):
+    """bqskit.ext pytket (and, thorough tier, cirq) translators: the same encode/decode code
+    behind third-party QASM readers/writers; unitary must survive both directions."""
+    from bqskit.ir.circuit import Circuit
+    from bqskit.ir.gates import (CNOTGate, CZGate, HGate, RXGate, RYGate, RZGate, SwapGate,
+                                 TGate, U3Gate, CCXGate, SXGate, XGate, SGate, U2Gate, U1Gate)
+    ck, rng = r.ck, r.rng
+    gates = [HGate(), TGate(), SXGate(), XGate(), SGate(), RXGate(), RYGate(), RZGate(),
+             U3Gate(), U2Gate(), U1Gate(), CNOTGate(), CZGate(), SwapGate(), CCXGate()]
+    legs = []
+    try:
+        from bqskit.ext import bqskit_to_pytket, pytket_to_bqskit
+        legs.append(('pytket', bqskit_to_pytket, pytket_to_bqskit,
+                     lambda t: np.asarray(t.get_unitary())))
+    except Exception:
+        ck.bump('ext_unavailable', 'pytket')
+    if with_cirq:
+        try:
+            import cirq
+            from bqskit.ext import bqskit_to_cirq, cirq_to_bqskit
+
+            def cirq_u(cc, nq=[0]):
+                qs = sorted(cc.all_qubits())
+                return np.asarray(cirq.unitary(cc))
+            legs.append(('cirq', bqskit_to_cirq, cirq_to_bqskit, cirq_u))
+        except Exception:
+            ck.bump('ext_unavailable', 'cirq')
+    for i in range(n):
+        nq = rng.randint(1, 4)
+        c = Circuit(nq)
+        # every qubit is touched so that the foreign circuit has the same width
+        for q in range(nq):
+            c.append_gate(HGate(), q)
+        for _ in range(rng.randint(1, 8)):
+            g = rng.choice([h for h in gates if h.num_qudits <= nq])
+            c.append_gate(g, rng.sample(range(nq), g.num_qudits),
+                          [rng.uniform(-3, 3) for _ in range(g.num_params)])
+        U = bq_unitary(c)
+        for name, fwd, back, uni in legs:
+            ck.count((f'ext-{name}', repr(impl_ops(c))))
+            try:
+                foreign = fwd(c)
+                d1 = phase_dist(uni(foreign), U)
+                c2 = back(foreign)
+                d2 = phase_dist(bq_unitary(c2), U) if c2.num_qudits == nq else 1.0
+            except BaseException as e:
+                if isinstance(e, (KeyboardInterrupt, SystemExit)):
+                    raise
+                d1 = d2 = f'{type(e).__name__}: {str(e)[:100]}'
+            if not (isinstance(d1, float) and d1 < 1e-6 and isinstance(d2, float) and d2 < 1e-6):
+                ck.violation(f'C17-ext-{name}',
+                             f'bqskit.ext {name} translation changes the unitary / fails '
+                             f'(to: {d1}, back: {d2})',
+                             {'stream': 'ext', 'ops': fmt_ops(impl_ops(c)),
+                              'text': c.to('qasm')})
+
+
 # =============================================================== driver
 def run_all(r: Run, proved):
     ck = r.ck
@@ -866,6 +923,7 @@ def run_all(r: Run, proved):
     lex_texts = [unesc(l[7:]) for l in r.requests if l.startswith('decode ')]
     stream_lex(r, lex_texts[:20000 if thorough else 1000])
     stream_ext(r, 600 if thorough else 40)
+    stream_ext_other(r, 200 if thorough else 12, with_cirq=thorough)
     r.flush()
     ck.coverage['common_with_qiskit'] = sorted(r.common)
     ck.coverage['rule'] = (
